@@ -287,7 +287,7 @@ func drawSide(t *rapid.T, cfg *ImgCfg, name string) int {
 	return v
 }
 
-var contentClasses = []string{"flat", "pal2", "pal4", "pal16", "pal256", "gradient", "photo", "noise", "tiled", "sparse", "regions", "bands", "drawn"}
+var contentClasses = []string{"flat", "pal2", "pal4", "pal16", "pal256", "gradient", "photo", "noise", "tiled", "sparse", "regions", "bands", "drawn", "outlier"}
 var alphaClasses = []string{"opaque", "opaque", "binary", "levels", "gradient", "noise", "transparent", "transp-colored", "semi-flat", "late", "early"}
 
 // DrawImg draws a picture case.
@@ -503,6 +503,60 @@ func RenderContent(w, h int, content, alpha string, seed uint64) []byte {
 					set(x, y, [3]byte{r.Byte(), r.Byte(), r.Byte()})
 				} else {
 					set(x, y, c)
+				}
+			}
+		}
+	case "outlier":
+		// one texture everywhere except for 1-3 small blocks of another nature (a flat or a gradient
+		// patch): analysis passes that cluster blocks meet a class with a handful of members
+		base := [3]byte{r.Byte(), r.Byte(), r.Byte()}
+		amp := 8 + r.Intn(90)
+		for y := 0; y < h; y++ {
+			for x := 0; x < w; x++ {
+				var c [3]byte
+				for k := 0; k < 3; k++ {
+					v := int(base[k]) + r.Intn(2*amp+1) - amp
+					if v < 0 {
+						v = 0
+					}
+					if v > 255 {
+						v = 255
+					}
+					c[k] = byte(v)
+				}
+				set(x, y, c)
+			}
+		}
+		nOut := 1
+		if r.Intn(3) == 0 {
+			nOut = 1 + r.Intn(3)
+		}
+		for n := nOut; n > 0; n-- {
+			bw, bh := 16, 16
+			if r.Intn(3) == 0 {
+				bw, bh = 16*(1+r.Intn(2)), 16*(1+r.Intn(2))
+			}
+			bx, by := 16*r.Intn((w+15)/16), 16*r.Intn((h+15)/16)
+			if r.Intn(3) == 0 { // on the picture border (map smoothing leaves border blocks alone)
+				if r.Intn(2) == 0 {
+					bx = 0
+				} else {
+					by = 0
+				}
+			}
+			if r.Intn(4) == 0 { // not aligned to the macroblock grid
+				bx += r.Intn(16)
+				by += r.Intn(16)
+			}
+			c := [3]byte{r.Byte(), r.Byte(), r.Byte()}
+			grad := r.Intn(2) == 0
+			for y := by; y < by+bh && y < h; y++ {
+				for x := bx; x < bx+bw && x < w; x++ {
+					cc := c
+					if grad {
+						cc[0] = byte(int(c[0]) + (x-bx)*2)
+					}
+					set(x, y, cc)
 				}
 			}
 		}
